@@ -140,6 +140,11 @@ func (e *Engine) bindContract(c *Contract) error {
 	if strings.HasPrefix(key, "ext ") {
 		name := strings.TrimSpace(key[4:])
 		c.Trusted = true
+		fn, err := e.lookupExternal(name)
+		if err != nil {
+			return fail("%v", err)
+		}
+		e.cons[fn] = c
 		e.extcon[name] = c
 		return nil
 	}
@@ -164,6 +169,35 @@ func (e *Engine) bindContract(c *Contract) error {
 	}
 	e.cons[fn] = c
 	return nil
+}
+
+// lookupExternal resolves "pkg/path.Func" or "(*pkg/path.T).Method" / "pkg/path.T.Method".
+func (e *Engine) lookupExternal(name string) (*ssa.Function, error) {
+	ptr := false
+	n := name
+	if strings.HasPrefix(n, "(*") {
+		ptr = true
+		n = strings.Replace(n[2:], ")", "", 1)
+	}
+	// longest package path prefix
+	var best *ssa.Package
+	bestLen := -1
+	for path, p := range e.pkgs {
+		if strings.HasPrefix(n, path+".") && len(path) > bestLen {
+			best, bestLen = p, len(path)
+		}
+	}
+	if best == nil {
+		return nil, fmt.Errorf("external %s: package not loaded", name)
+	}
+	rest := n[bestLen+1:]
+	key := rest
+	if i := strings.Index(rest, "."); i >= 0 {
+		if ptr {
+			key = "(*" + rest[:i] + ")." + rest[i+1:]
+		}
+	}
+	return e.lookupFunc(best, key)
 }
 
 // lookupFunc resolves "Name", "(*T).M", "T.M", with optional "$k" suffixes.
@@ -309,7 +343,7 @@ func (e *Engine) zero(t types.Type) *Term {
 		case u.Info()&types.IsBoolean != 0:
 			return False
 		case u.Info()&types.IsString != 0:
-			return MkStr(zeroArr, IntLit(0), IntLit(0))
+			return MkStr(zeroArr, IntLit(0))
 		default:
 			return IntLit(0)
 		}
